@@ -301,6 +301,14 @@ def rerun_on_older_base(d, prop, tier, seeded=False):
                                                       "; ".join(new)[:200])
         return "silent-on-base=%s rc=%d (base alone: %s)" % (
           commit, rc, ", ".join(key_names(bkeys))[:150] or "nothing")
+      if extra and sum(observed(keys).values()) == \
+         sum(observed(bkeys).values()):
+        # the very same number of violating cases: the base tree's own defect
+        # shows under another symptom in the refactored code (e.g. a stream
+        # read twice now shows as a wrong sample first), nothing was added
+        return "silent  on-base=%s (same %d violating cases as that tree " \
+               "alone, %s classified differently)" % (
+                 commit, sum(observed(keys).values()), "; ".join(extra)[:120])
       if rc in (0, 1) and brc in (0, 1) and not extra:
         return "silent  on-base=%s (that tree alone reports: %s)" % (
           commit, ", ".join(key_names(bkeys)) or "nothing")
